@@ -223,7 +223,20 @@ theorem nonEmpty_ts (c : Cfg) (ts : TS) : NonEmptyFirst (writeTS c ts) := by
 
 /-- the calls a table writer makes, in order -/
 def tableCalls (c : Cfg) (t : Table) : List WOut :=
-  [fhWrite, writeTM c t.tm] ++ t.slices.map (writeTS c) ++ [writeTSEnd]
+  [fhWrite, writeTM c t.tm] ++ t.slices.map (writeTSOf c t.tm) ++ [writeTSEnd]
+
+theorem sound_tsOf (c : Cfg) (tm : TM) (ts : TS) : Sound (writeTSOf c tm ts) := by
+  unfold writeTSOf; split
+  · exact sound_err _
+  · exact sound_ts c ts
+
+/-- a slice the writer accepts (column count of its metadata) starts by writing its marker -/
+theorem nonEmpty_tsOf (c : Cfg) (tm : TM) (ts : TS) (h : (writeTSOf c tm ts).st = .ok) :
+    NonEmptyFirst (writeTSOf c tm ts) := by
+  unfold writeTSOf at h ⊢
+  split
+  · rename_i hne; simp [hne, WOut.err] at h
+  · exact nonEmpty_ts c ts
 
 theorem tableCalls_sound (c : Cfg) (t : Table) : ∀ w ∈ tableCalls c t, Sound w := by
   intro w hw
@@ -232,17 +245,19 @@ theorem tableCalls_sound (c : Cfg) (t : Table) : ∀ w ∈ tableCalls c t, Sound
   rcases hw with rfl | rfl | ⟨ts, _, rfl⟩ | rfl
   · exact sound_fh
   · exact sound_tm c _
-  · exact sound_ts c _
+  · exact sound_tsOf c _ _
   · exact sound_end
 
-theorem tableCalls_nonEmpty (c : Cfg) (t : Table) : ∀ w ∈ tableCalls c t, NonEmptyFirst w := by
+theorem tableCalls_nonEmpty (c : Cfg) (t : Table) (hrep : ∀ w ∈ tableCalls c t, w.st = .ok) :
+    ∀ w ∈ tableCalls c t, NonEmptyFirst w := by
   intro w hw
+  have hst := hrep w hw
   simp only [tableCalls, List.cons_append, List.nil_append, List.mem_cons, List.mem_append, List.mem_map,
     List.not_mem_nil, or_false] at hw
   rcases hw with rfl | rfl | ⟨ts, _, rfl⟩ | rfl
   · exact nonEmpty_fh
   · exact nonEmpty_tm c _
-  · exact nonEmpty_ts c _
+  · exact nonEmpty_tsOf c _ _ hst
   · exact nonEmpty_end
 
 /-- C13 for tables: for every table the writers can represent and every offset `b` below the
@@ -253,7 +268,7 @@ theorem table_write_faults (c : Cfg) (t : Table) (hrep : ∀ w ∈ tableCalls c 
     (hb : b < ((tableCalls c t).map (fun w => w.bytes.length)).sum) :
     ∃ pre post, runCalls b (tableCalls c t) = pre ++ post ∧ (∀ s ∈ pre, s = .ok) ∧ post ≠ [] ∧
       ∀ s ∈ post, s ≠ .ok :=
-  failure_is_sticky _ (tableCalls_sound c t) (tableCalls_nonEmpty c t) hrep b hb
+  failure_is_sticky _ (tableCalls_sound c t) (tableCalls_nonEmpty c t hrep) hrep b hb
 
 /-- non-vacuity: a writer with a short budget -/
 example : (emit (some 2) fhWrite).1 = .io ∧ (emit (some 2) fhWrite).2 = [0xdf, 0x5b] ∧
